@@ -19,7 +19,7 @@ RULE = {
 ASSUMPTIONS = {"C15": ["'terminates' is restated as: returns within 30 s of CPU time per text (watchdog firing = inconclusive)", "line numbers are judged against text.splitlines(); the line text of the exception is recorded as a diagnostic only"]}
 REQUIRED = {"C15": ["rv_texts", "toy_texts", "parser_exceptions", "loads_ok", "memory_size_or_address_errors", "soups", "runtime_faults_single", "runtime_faults_five", "hostile_literals_injected", "line_numbers_checked", "runtime_cases_with_cache", "failing_address_footprints_checked"]}
 
-HOSTILE = ["010", "-01", "00", "007", "0x", "0b", "0b2", "0X1", "0B1", "1e3", "1_0", "1_000", "１２", "١٢", "123456789012345678901234567890", "-123456789012345678901234567890", "+5", "--5", "0x-5", "5-", "0xg", "1.5", "''", "0x1_0", "0o17", "0b", "-", "0b102", "09", "-0", "-00", "0x00000000000000000000000000001", "1 2", "²", "0٠",
+HOSTILE = ["9" * 4400, "-" + "1" * 4301, "0x" + "f" * 5000, "010", "-01", "00", "007", "0x", "0b", "0b2", "0X1", "0B1", "1e3", "1_0", "1_000", "１２", "١٢", "123456789012345678901234567890", "-123456789012345678901234567890", "+5", "--5", "0x-5", "5-", "0xg", "1.5", "''", "0x1_0", "0o17", "0b", "-", "0b102", "09", "-0", "-00", "0x00000000000000000000000000001", "1 2", "²", "0٠",
            # well-formed numbers of the other bases: legal in most positions, unexpected in some (indices, counts, shift amounts)
            "0x2", "0b1", "0x0", "0b0", "-2", "0X2", "0B1", "0x1F", "-0x1"]
 
@@ -132,6 +132,19 @@ def classify_load(kind, text, res, case, fault_kinds):
 # ------------------------------------------------------------------------------------- fault injection (RISC-V)
 
 
+LOOKALIKE = {"s": "\u017f", "S": "\u017f", "i": "\u0131", "I": "\u0130", "k": "\u212a", "K": "\u212a", "a": "\u0430", "e": "\u0435", "o": "\u03bf", "x": "\u0445", "l": "\uff4c", "d": "\uff44", "1": "\u00b9"}
+
+
+def unicode_letter(rng, line):
+    """one letter of the line replaced by a letter that is not ASCII but case-folds / looks like it (long s, dotless i,
+    Kelvin sign, Cyrillic, full-width): the text is malformed, the answer is a parser error with the line"""
+    pos = [j for j, ch in enumerate(line) if ch in LOOKALIKE]
+    if not pos:
+        return line + " \u017f"
+    j = pos[0] if rng.random() < 0.5 else rng.choice(pos)
+    return line[:j] + LOOKALIKE[line[j]] + line[j + 1 :]
+
+
 def inject(rng, text, ast):
     """returns (mutated text, fault kind)"""
     lines = text.split("\n")
@@ -180,6 +193,8 @@ def inject(rng, text, ast):
     if k < 0.84:
         lines[i] = rng.choice(["fence x1, x2", "fence", "ebreak x1", "csrrw x1, 010, x2", "csrrwi x1, 0x300, 010", "csrrs x1, 99999999999999999999, x2", "csrrci x1, -1, 99999999999", "mv x1", "li x1, x2", "la x1, 5", "lw x1, v0[1", "sw x1, 0(x2", "lw x1, (x2)", "jalr x1", "jal 8", "beq x1, x2", "lui x1, -1", "lui x1, 99999999999999999999", "slli x1, x2, 99999999999999999999", "jal x1, L0+0x", "jal x1, L0+5", "beq x0, x0, L0+-0x4", "jal x1, 010", "beq x1, x2, 09", "addi x32, x0, 1", "addi x1, x0, 1 1", "nop nop", "ecall 1", "x1: nop", "add: nop", "lw x1, 0x(x2)"])
         return "\n".join(lines), "odd-instruction"
+    if k < 0.87:
+        return "\n".join(lines[:i] + [unicode_letter(rng, l)] + lines[i + 1 :]), "unicode-letter"
     if k < 0.9:
         ch = rng.choice(["\t", "\x00", " ", "\r", "\x0c", " ", ";", "\"", "'", "\\", "\x1c", "\x85"])
         pos = rng.randrange(len(l) + 1)
@@ -218,6 +233,9 @@ def toy_inject(rng, text):
         else:
             lines[i] = l + " " + rng.choice(HOSTILE)
         return "\n".join(lines), "hostile-literal"
+    if k < 0.5:
+        lines[i] = unicode_letter(rng, l)
+        return "\n".join(lines), "unicode-letter"
     if k < 0.6:
         lines.insert(i, rng.choice([".data", ".text", ".bss", "zz: .word 1", "zz: .word", "zz: .half 1", "zz .word 1", "zz: .word 1,", "zz: .word ,1"]))
         return "\n".join(lines), "segment-or-declaration"
@@ -252,6 +270,11 @@ def directed_texts():
             D.append(("rv", tmpl % lit, ["hostile-literal"]))
         for tmpl in ("LDA %s", ".data\nv: .word %s\n.text\nLDA v", ".data\nv: .word 1, %s"):
             D.append(("toy", tmpl % lit, ["hostile-literal"]))
+    # a mnemonic / directive / register spelled with a letter that is not ASCII but case-folds to (or looks like) one
+    for t in ("\u017fub x1, x2, x3", "nop\nadd\u0131 x1, x1, 1", "SLT\u0130 x1, x2, 3", "nop\nnop\n\u017fw x1, 0(x2)", "l\u0131 x1, 5", "\u017fll\u0131 x1, x1, 2", "ecall\nE\u212aall", "addi \u0445" + "1, x0, 1", ".data\nv: .word 1\n.text\n\u017fw x1, v, x2"):
+        D.append(("rv", t, ["unicode-letter"]))
+    for t in ("\u0131NC", "NOP\n\u017fTO 5", "\u0130NC", "ADD 1\n\u017fUB 2", "INC\nDEC\nX\u03bfR 3"):
+        D.append(("toy", t, ["unicode-letter"]))
     # programs that fit EXACTLY (every slot of the instruction memory / every word of the TOY memory is used) must load
     D.append(("rv", "\n".join(["nop"] * 4096), ["must-load"]))
     D.append(("rv", "\n".join(["li x1, 100000"] * 2048), ["must-load"]))
